@@ -183,6 +183,9 @@ def run_history(rec, case):
     WsConnA.accept_clk_safe = _accept_clk_safe
     rng = gen.mkrng('c03', case['seed'], case['i'])
     srv = case.get('srv') or rng.choice(['T', 'A'])
+    if srv == 'A' and case.get('aio'):
+        srv = case['aio']    # asyncio server behind the aiohttp adapter
+        rec.count('histories_on_aiohttp_adapter')
     rec.evaluations += 1
     # the inbound size limit says nothing about what the server sends: a
     # share of the histories runs with a limit smaller than two queued
@@ -463,6 +466,8 @@ def run_shard(spec):
     else:
         cases = [{'seed': spec['seed'], 'i': spec['shard'] * 1000000 + k}
                  for k in range(spec['n'])]
+        for c in cases[::2]:
+            c['aio'] = 'H'
         scen.run_cases(rec, cases, dispatch)
     return rec.result()
 
